@@ -34,6 +34,7 @@ theorem stepOnce_sound {K : List Key} {S : List Sec} {seals : List (Key × Sec)}
     | genesis => cases ht
     | fresh n => cases ht
     | psk i => cases ht
+    | ext n => cases ht
   · rw [List.mem_filterMap] at hf
     obtain ⟨⟨k, s⟩, hm, hif⟩ := hf
     split at hif
